@@ -327,7 +327,7 @@ def run_impl(case):
         # graphs whose registry entry the line may change: graphs carried in by a foreign Graph object, plus per op
         reg_touched = {int(x) for x in re.findall(r"f(\d+):", lines[k])}
         add_target = None
-        if True:
+        try:
             if op == "add":
                 top, t, g = w[1], tuple(map(int, w[2:5])), _garg(w[5])
                 arg = im.triple(t) if g[0] == "-" else im.triple(t) + (im.gobj(g, top),)
@@ -739,6 +739,10 @@ def run_impl(case):
                 out = "ok"        # reaching this line means no call of the script raised
             else:
                 out = "bad-op"
+        except Exception as e:      # no call of a script may raise (the concrete store model's `err` flag stays false)
+            bad("raise", k, f"{type(e).__name__}: {str(e)[:120]}")
+            obs.append("raised " + type(e).__name__)
+            break
         obs.append(out)
         # registry isolation, on the implementation's own store.contexts(): only the graphs the line addresses
         # may appear / disappear (the default graph of the Dataset is re-created lazily: exempt)
